@@ -29,5 +29,13 @@ theorem lenL_beq_zero {α : Type} (xs : List α) : (Go.lenL xs == 0) = decide (x
 theorem fmtD_nat (i : Nat) : Go.fmtD (i : Int) = toString i := by
   simp [Go.fmtD, toString, Int.repr]
 
+theorem index_append_length {α : Type} (pre : List α) (c : α) (suf : List α) :
+    Go.index (pre ++ c :: suf) (pre.length : Int) = .ok c := by
+  simp [Go.index]
+
+theorem sliceL_zero {α : Type} (xs : List α) (n : Nat) (h : n ≤ xs.length) :
+    Go.sliceL xs 0 (n : Int) = .ok (xs.take n) := by
+  simp [Go.sliceL, h]
+
 end Ytk.Go
 
